@@ -394,14 +394,24 @@ class NSGCoordinator(GameCoordinator):
         # This is a quick fix, we should find some other solution
         agents = self.task_config.config['coordinator']['agents']
         # Fields that are dictionaries with IP keys
-        dict_keys = ['known_data', 'blocked_ips', 'known_blocks']
+        dict_keys = ['known_data', 'blocked_ips', 'known_blocks', 'known_services']
         # Fields that are lists of IP strings
         list_keys = ['known_hosts', 'controlled_hosts']
         ip_regex = re.compile(r'\b(?:[0-9]{1,3}\.){3}[0-9]{1,3}\b')
         
+        def remap_ip(ip):
+            try:
+                return str(mapping_ips[IP(ip)])
+            except (ValueError, KeyError, TypeError):
+                # Keep the original if invalid or not in mapping_ips
+                return ip
+
         for agent in agents.values():
+            if not agent:
+                # role without configuration
+                continue
             for section_key in ['goal', 'start_position']:
-                section = agent.get(section_key, {})
+                section = agent.get(section_key) or {}
 
                 # Remap IP addresses in the description field of the goal section
                 if section_key == 'goal' and 'description' in section:
@@ -417,16 +427,28 @@ class NSGCoordinator(GameCoordinator):
 
                 # Remap dictionary keys
                 for key in dict_keys:
-                    if key in section:
-                        current_dict = section[key]
-                        for ip in list(current_dict.keys()):
-                            try:
-                                # Convert the ip string to an IP object
-                                new_ip = str(mapping_ips[IP(ip)])
-                            except (ValueError, KeyError):
-                                # Skip if the IP is invalid or not found in mapping_ips
-                                continue
-                            current_dict[new_ip] = current_dict.pop(ip)
+                    if section.get(key):
+                        section[key] = {remap_ip(ip): value for ip, value in section[key].items()}
+
+                # Remap the blocked hosts listed for each host
+                if section.get('known_blocks'):
+                    for host, blocked in section['known_blocks'].items():
+                        if isinstance(blocked, dict):
+                            section['known_blocks'][host] = {remap_ip(ip): value for ip, value in blocked.items()}
+                        elif isinstance(blocked, (list, set, tuple)):
+                            section['known_blocks'][host] = [remap_ip(ip) for ip in blocked]
+
+                # Remap networks
+                if section.get('known_networks'):
+                    new_nets = []
+                    for net in section['known_networks']:
+                        try:
+                            host_part, net_part = str(net).split('/')
+                            new_nets.append(str(mapping_nets[Network(host_part, int(net_part))]))
+                        except (ValueError, KeyError):
+                            # Keep the original if it is not a network of the scenario
+                            new_nets.append(net)
+                    section['known_networks'] = new_nets
 
                 # Remap list items
                 for key in list_keys:
